@@ -56,6 +56,17 @@ var docs = map[string]string{
 	"D5": dead("I1", "Élise /Éluard/", "1 Jan 1800", "../escaped") + dead("I2", "Ōta /Ōta/", "2 Feb 1802", "N/A, Nowhere") + dead("I3", "Иван /Жуков/", "3 Mar 1803", "Paris/Île-de-France") +
 		dead("I4", ".. /../", "4 Apr 1804", "a\\b") + dead("I5", ". /./", "5 May 1805", ".") + dead("I6", "Dot.Name /St. Ives/", "6 Jun 1806", "..") + dead("I7", "C:\\Temp /x:y/", "7 Jul 1807", "C:\\Temp, x?y=z&w") +
 		dead("I8", "Per%2Fcent /%2e%2e/", "8 Aug 1808", "%2e%2e%2fup"),
+	// first and last letters of the index; several events of one kind at one place in one year (orderings that tie easily)
+	"D6": dead("I1", "Aaron /Abbott/", "1 Jan 1800", "Tietown, England", "1 RESI", "2 DATE 3 Mar 1841", "2 PLAC Tietown, England", "1 RESI", "2 DATE 9 Sep 1841", "2 PLAC Tietown, England", "1 RESI", "2 DATE 1841", "2 PLAC Tietown, England", "1 FAMS @F1@", "1 FAMS @F2@") +
+		dead("I2", "Zoe /Zimmer/", "2 Feb 1802", "Tietown, England", "1 FAMS @F1@") + dead("I3", "Zelda /zola/", "3 Mar 1803", "Tietown, England", "1 FAMS @F2@") + dead("I4", "Yan /Young/", "4 Apr 1830", "Tietown, England", "1 FAMC @F1@") +
+		"0 @F1@ FAM\n1 HUSB @I1@\n1 WIFE @I2@\n1 CHIL @I4@\n1 MARR\n2 DATE 5 May 1825\n2 PLAC Tietown, England\n0 @F2@ FAM\n1 HUSB @I1@\n1 WIFE @I3@\n1 MARR\n2 DATE 6 Jun 1825\n2 PLAC Tietown, England\n",
+}
+
+func tail(s string, n int) string {
+	if len(s) > n {
+		return s[len(s)-n:]
+	}
+	return s
 }
 
 func decode(name string) *gedcom.Document {
@@ -254,6 +265,31 @@ func judgeNames(k kase) (fs []finding) {
 			}
 			return nil
 		})
+		// earlier publishing into the same directory: another site is published first, then this
+		// document over it; every file of this document must hold exactly this document's page
+		if k.Living == "show" && len(w.Pages) > 0 {
+			other := "D2"
+			if k.Doc == "D2" {
+				other = "D6"
+			}
+			dir2 := filepath.Join(root, "again")
+			os.MkdirAll(dir2, 0o755)
+			func() {
+				defer func() { recover() }()
+				ghtml.NewPublisher(decode(other), pub.Options(k.Mask, vis(k.Living))).Publish(core.NewDirectoryFileWriter(dir2), 1)
+				ghtml.NewPublisher(decode(k.Doc), pub.Options(k.Mask, vis(k.Living))).Publish(core.NewDirectoryFileWriter(dir2), 1)
+			}()
+			for _, p := range w.Pages {
+				if p.Panic != "" || strings.ContainsAny(p.Name, "/\\") || names[p.Name] > 1 {
+					continue
+				}
+				b, err := os.ReadFile(filepath.Join(dir2, p.Name))
+				if err == nil && string(b) != p.Body {
+					add("file-content-depends-on-earlier-publishing-into-the-directory:"+pageClass(p.Name), fmt.Sprintf("%s published over a directory that held the site of %s: file %s has %d bytes, the page has %d (tail: %q)", k.Doc, other, p.Name, len(b), len(p.Body), tail(string(b), 60)))
+					break
+				}
+			}
+		}
 	}
 	return
 }
@@ -456,7 +492,7 @@ func bound(tier string) int {
 func units(tier string) []kase {
 	var out []kase
 	// names and closure
-	for _, d := range []string{"D1", "D2", "D3", "D5", "empty"} {
+	for _, d := range []string{"D1", "D2", "D3", "D5", "D6", "empty"} {
 		for _, living := range []string{"show", "hide", "placeholder"} {
 			for mask := 0; mask < 64; mask++ {
 				out = append(out, kase{Part: "names", Doc: d, Mask: mask, Living: living, Jobs: 1})
@@ -479,7 +515,7 @@ func units(tier string) []kase {
 		}
 	}
 	// histories
-	seqDocs := []string{"D1", "D2", "D4", "empty"}
+	seqDocs := []string{"D1", "D2", "D4", "D6", "empty"}
 	var seqs [][]string
 	for _, a := range seqDocs {
 		seqs = append(seqs, []string{a})
